@@ -162,7 +162,7 @@ def vivo_items(ctx, n, check, sims=('step', 'fast'), id0=1, hooks_bias=False):
                    p_edit=r.choice([0.0, 0.15, 0.4]), p_cancel=r.choice([0.1, 0.3]), entry_every=r.choice([5, 7, 11]),
                    p_liquidate=r.choice([0.0, 0.03]), p_edit_on_reduced=r.choice([0.0, 0.3, 0.8]),
                    exits_in=r.choice(['on_open', 'mixed'] if hooks_bias else ['go', 'on_open', 'mixed']),
-                   tick=1.0 if not real else 0.37)
+                   tick=1.0 if not real else r.choice([0.37, 0.37, 0.012]))      # 0.012: exits within 0.015 % of the price
         # exits declared together with the entries must lie beyond every entry row (rows are within 2 ticks of the
         # price): an exit on the wrong side of the fill makes the strategy layer flip the position endlessly
         far = pol['exits_in'] != 'on_open'
